@@ -502,7 +502,7 @@ class Ctx:
         m = self.solver.model()
         rec["inputs"] = [self.eval_input(m, k, t) for (k, t) in self.inputs]
         rec["observations"] = [[k, self.eval_input(m, k2, t)] for (k, k2, t) in self.observations]
-        rec["hash_dependent"] = any(not d.is_concrete() for _, d in self.hashes)
+        rec["hash_dependent"] = any(not d.is_concrete() for _, d in self.hashes) or (bool(self.hashes) and int(self.opts.get("digest_len", 64)) != 64)
         if status == "panic" and rec["hash_dependent"]:
             # the real SHA-256 will not reproduce the model's digests: offer alternative inputs
             alts = []
